@@ -8,7 +8,7 @@
    PathElementMatcher.Compare/Equals/Less.  [wf_value] is the representation invariant
    of model maps (unique, sorted keys) which Go maps satisfy by construction. *)
 From Coq Require Import List ZArith QArith String Bool.
-From SMD Require Import Model.Value Model.Order Model.PathElem Model.Matcher Proofs.OrderLaws.
+From SMD Require Import Model.Value Model.Order Model.PathElem Model.Matcher Model.Schema Proofs.OrderLaws Proofs.SchemaEqLaws.
 Import ListNotations.
 
 (* ---- a lawful total preorder, stated once ---- *)
@@ -112,6 +112,73 @@ Print Assumptions C17_matcher_compare_zero_iff_equals.
 Theorem C17_matcher_less_iff_negative : forall a b, pm_less a b = true <-> pm_cmp a b = Lt.
 Proof. exact pm_less_iff. Qed.
 Print Assumptions C17_matcher_less_iff_negative.
+
+(* ---- schemas (schema/equals.go as repaired by 96c9872 and 7dfbd34): equality of type
+   references, atoms and schemas is an equivalence relation, and equal schemas resolve
+   every reference to equal atoms ---- *)
+Theorem C17_typeref_equals_reflexive :
+  forall a : typeref, tr_eqb a a = true.
+Proof. exact tr_eqb_refl. Qed.
+Print Assumptions C17_typeref_equals_reflexive.
+
+Theorem C17_typeref_equals_symmetric :
+  forall a b : typeref, tr_eqb a b = tr_eqb b a.
+Proof. exact tr_eqb_sym. Qed.
+Print Assumptions C17_typeref_equals_symmetric.
+
+Theorem C17_typeref_equals_transitive :
+  forall a b c : typeref, tr_eqb a b = true -> tr_eqb b c = true -> tr_eqb a c = true.
+Proof. exact tr_eqb_trans. Qed.
+Print Assumptions C17_typeref_equals_transitive.
+
+Theorem C17_atom_equals_reflexive :
+  forall a : atom, atom_eqb a a = true.
+Proof. exact atom_eqb_refl. Qed.
+Print Assumptions C17_atom_equals_reflexive.
+
+Theorem C17_atom_equals_symmetric :
+  forall a b : atom, atom_eqb a b = atom_eqb b a.
+Proof. exact atom_eqb_sym. Qed.
+Print Assumptions C17_atom_equals_symmetric.
+
+Theorem C17_atom_equals_transitive :
+  forall a b c : atom, atom_eqb a b = true -> atom_eqb b c = true -> atom_eqb a c = true.
+Proof. exact atom_eqb_trans. Qed.
+Print Assumptions C17_atom_equals_transitive.
+
+Theorem C17_schema_equals_reflexive :
+  forall a : schema, schema_eqb a a = true.
+Proof. exact schema_eqb_refl. Qed.
+Print Assumptions C17_schema_equals_reflexive.
+
+Theorem C17_schema_equals_symmetric :
+  forall a b : schema, schema_eqb a b = schema_eqb b a.
+Proof. exact schema_eqb_sym. Qed.
+Print Assumptions C17_schema_equals_symmetric.
+
+Theorem C17_schema_equals_transitive :
+  forall a b c : schema,
+         schema_eqb a b = true -> schema_eqb b c = true -> schema_eqb a c = true.
+Proof. exact schema_eqb_trans. Qed.
+Print Assumptions C17_schema_equals_transitive.
+
+Theorem C17_equal_schemas_resolve_alike :
+  forall (s1 s2 : schema) (tr : typeref),
+         schema_eqb s1 s2 = true ->
+         match resolve s1 tr with
+         | Some a1 =>
+             match resolve s2 tr with
+             | Some a2 => atom_eqb a1 a2 = true
+             | None => False
+             end
+         | None => match resolve s2 tr with
+                   | Some _ => False
+                   | None => True
+                   end
+         end.
+Proof. exact schema_eqb_resolve. Qed.
+Print Assumptions C17_equal_schemas_resolve_alike.
+
 
 (* ---- non-vacuity: the hypotheses are met by concrete, non-trivial data ---- *)
 Example C17_wf_example :
